@@ -418,6 +418,75 @@ def _compile_flat_mesh():
             f"def flatVertexKey (v : Nat) : Nat := {vk}\n")
 
 
+def _compile_inits():
+    """TutteEmbedding.__init__ (accepted mode strings, the custom boundary overrides the mode, where use_cotan comes from) and
+    BaseParametrization.__init__ (keyword names and defaults)"""
+    tree, _ = T.load(TUT)
+    fn = T.find_def(tree, "TutteEmbedding.__init__")
+    params = [a.arg for a in fn.args.args]
+    if params[:3] != ["self", "mesh", "boundary_mode"] or "use_cotan" not in params: raise TranslateError(f"TutteEmbedding.__init__: parameters {params}")
+    enum = {}
+    for st in T.find_def(tree, "TutteEmbedding.BoundaryMode").body:
+        if isinstance(st, ast.Assign) and isinstance(st.targets[0], ast.Name) and isinstance(st.value, ast.Constant): enum[st.targets[0].id] = st.value.value
+    allowed = ckey = cdef = cot = mode = None
+    for st in _strip(fn.body):
+        if isinstance(st, ast.Expr) and isinstance(st.value, ast.Call):
+            f = st.value.func
+            if getattr(f, "id", None) == "check_argument":
+                a = st.value.args
+                ok = len(a) == 4 and isinstance(a[1], ast.Name) and a[1].id == "boundary_mode" and isinstance(a[3], (ast.List, ast.Tuple)) \
+                    and all(isinstance(e, ast.Constant) and isinstance(e.value, str) for e in a[3].elts)
+                if not ok: raise TranslateError("TutteEmbedding.__init__: check_argument on boundary_mode not recognised")
+                allowed = [e.value for e in a[3].elts]; continue
+            if isinstance(f, ast.Attribute) and f.attr == "__init__": continue       # super().__init__(...)
+            raise TranslateError(f"TutteEmbedding.__init__: unsupported call `{ast.unparse(st)[:60]}`")
+        if isinstance(st, ast.Assign) and _path(st.targets[0]) == "self._custom_bnd":
+            v = st.value
+            ok = isinstance(v, ast.Call) and _path(v.func) == "kwargs.get" and len(v.args) == 2 and isinstance(v.args[0], ast.Constant) \
+                and isinstance(v.args[1], ast.Constant) and v.args[1].value is None
+            if not ok: raise TranslateError("TutteEmbedding.__init__: `_custom_bnd = kwargs.get(<key>, None)` not recognised")
+            ckey = v.args[0].value; continue
+        if isinstance(st, ast.Assign) and _path(st.targets[0]) == "self._use_cotan":
+            if not (isinstance(st.value, ast.Name) and st.value.id in params): raise TranslateError("TutteEmbedding.__init__: _use_cotan is not a parameter")
+            cot = st.value.id; continue
+        if isinstance(st, ast.If):
+            t = st.test
+            ok = isinstance(t, ast.Compare) and len(t.ops) == 1 and _path(t.left) == "self._custom_bnd" and isinstance(t.comparators[0], ast.Constant) \
+                and t.comparators[0].value is None and isinstance(t.ops[0], (ast.Is, ast.IsNot))
+            if not ok: raise TranslateError(f"TutteEmbedding.__init__: condition `{ast.unparse(t)}` is not `self._custom_bnd is None`")
+            none_br, some_br = (st.body, st.orelse) if isinstance(t.ops[0], ast.Is) else (st.orelse, st.body)
+            def val(br):
+                br = _strip(br)
+                if len(br) != 1 or not (isinstance(br[0], ast.Assign) and _path(br[0].targets[0]) == "self._bnd_mode"): raise TranslateError("TutteEmbedding.__init__: branch does not assign _bnd_mode")
+                v = br[0].value
+                if isinstance(v, ast.Call) and (_path(v.func) or "").endswith("from_string") and len(v.args) == 1 and isinstance(v.args[0], ast.Name) and v.args[0].id == "boundary_mode":
+                    return "fromString"
+                pth = _path(v)
+                if pth and pth.split(".")[-1] in enum: return str(enum[pth.split(".")[-1]])
+                raise TranslateError(f"TutteEmbedding.__init__: mode `{ast.unparse(v)[:50]}`")
+            mode = (val(none_br), val(some_br)); continue
+        raise TranslateError(f"TutteEmbedding.__init__: unsupported statement `{ast.unparse(st)[:60]}`")
+    if None in (allowed, ckey, cot, mode): raise TranslateError("TutteEmbedding.__init__: a recognised part is missing")
+    btree, _ = T.load(BASE)
+    bfn = T.find_def(btree, "BaseParametrization.__init__")
+    kw = {}
+    for st in _strip(bfn.body):
+        if isinstance(st, ast.Assign) and isinstance(st.value, ast.Call) and _path(st.value.func) == "kwargs.get" and len(st.value.args) == 2 \
+                and isinstance(st.value.args[0], ast.Constant) and isinstance(st.value.args[1], ast.Constant):
+            kw[_path(st.targets[0])] = (st.value.args[0].value, st.value.args[1].value)
+    if "self.save_on_corners" not in kw or not isinstance(kw["self.save_on_corners"][1], bool):
+        raise TranslateError("BaseParametrization.__init__: `save_on_corners = kwargs.get(<key>, <bool>)` not recognised")
+    soc = kw["self.save_on_corners"]
+    return ("/-- `check_argument(\"boundary_mode\", ..)`: the accepted strings -/\n"
+            f"def initAllowedModes : List String := [{', '.join(chr(34) + a + chr(34) for a in allowed)}]\n\n"
+            "/-- `_bnd_mode`: from the string when no custom boundary is given, otherwise the enum value assigned -/\n"
+            f"def initMode (hasCustom : Bool) (fromString : Nat) : Nat := if !hasCustom then {mode[0]} else {mode[1]}\n\n"
+            "/-- keyword carrying the custom boundary; parameter stored in `_use_cotan` -/\n"
+            f"def initKeys : String × String := (\"{ckey}\", \"{cot}\")\n\n"
+            "/-- `BaseParametrization.__init__`: keyword and default of `save_on_corners` -/\n"
+            f"def baseSaveOnCorners : String × Bool := (\"{soc[0]}\", {'true' if soc[1] else 'false'})\n")
+
+
 HEADER = "import Mouette.Model.TutteSource\nnamespace Mouette.Generated.C17S\nopen Mouette.Tutte\n\n"
 
 
@@ -426,7 +495,8 @@ def sites():
     for name, fn in (("laplacian_op.py: laplacian (weights, pairing, COO writes, n_coeffs, cotangent selection)", _compile_laplacian),
                      ("tutte.py: TutteEmbedding.run (sub-matrices, right-hand sides, solves, storage loops)", _compile_run),
                      ("tutte.py: TutteEmbedding.BoundaryMode.from_string (ordered table, enum values)", _compile_from_string),
-                     ("base.py: BaseParametrization.flat_mesh (keys read per corner / per vertex)", _compile_flat_mesh)):
+                     ("base.py: BaseParametrization.flat_mesh (keys read per corner / per vertex)", _compile_flat_mesh),
+                     ("tutte.py: TutteEmbedding.__init__ + base.py: BaseParametrization.__init__ (mode selection, keywords, defaults)", _compile_inits)):
         box = {}
         def run(fn=fn, box=box):
             box["t"] = fn(); return "ok"
@@ -437,4 +507,9 @@ def sites():
     if ok:
         _, sha = T.write_generated("C17Sys", "\n".join(parts) + "\nend Mouette.Generated.C17S\n", header=HEADER)
         for r in recs: r["detail"] = sha
+    else:
+        # never leave the definitions of an EARLIER tree on disk: a stub without definitions makes every bridge fail to build
+        bad = "; ".join(r["site"].split(" (")[0] for r in recs if not r["ok"])
+        T.write_generated("C17Sys", f"/- translation of the current tree FAILED ({bad}): no definitions are emitted, the bridges cannot build -/\n"
+                          "end Mouette.Generated.C17S\n", header=HEADER)
     return recs
